@@ -93,6 +93,9 @@ func ParseValue(p ParseParams) (ast.Value, error) {
 	if err != nil {
 		return value, err
 	}
+	if _, err = expect(parser, lexer.EOF); err != nil {
+		return nil, err
+	}
 	return value, nil
 }
 
